@@ -19,6 +19,8 @@ CONFIGS = {
     "set-set-third": dict(modes=("set", "set"), adversary=("third",)),
     "solo-alloc": dict(modes=("allocate",), nmsg=(1,)),
     "set-set-internal-error": dict(modes=("set", "set"), adversary=("badhex",)),
+    "set-set-failed-negotiation": dict(modes=("set", "set"), adversary=("failopen",), max_opens=4),
+    "alloc-set-failed-negotiation": dict(modes=("allocate", "set"), adversary=("failopen",), max_opens=4),
     "set-set-deferred-internal-error": dict(modes=("set", "set"), delegated=(False, False), adversary=("badhex",)),
 }
 
@@ -64,7 +66,8 @@ class CloseExplore(Explore):
             a = sim.api[i]
             unwelcome = any(m.get("type") == "welcome" and "error" in m.get("welcome", {}) for m in c.rx_log)
             srverr = any(m.get("type") == "error" for m in c.rx_log)
-            must_close = a["closed"] or unwelcome or srverr
+            first_failed = getattr(c, "first_attempt_failed", False)     # the very first connection attempt failed: ServerConnectionError
+            must_close = a["closed"] or unwelcome or srverr or first_failed
             vs = verdict_of(c)
             if must_close and len(vs) != 1:
                 out.append(("no single closed notification after connectivity was restored", "%s: verdicts %r, T=%s B=%s" % (c.name, vs, c.state("T"), c.state("B"))))
@@ -81,6 +84,8 @@ class CloseExplore(Explore):
                 allowed.add("ServerError")
             if bad_msgs:
                 allowed.add("WrongPasswordError")
+            if first_failed:
+                allowed.add("ServerConnectionError")
             if any(m.get("side") == THIRD and m.get("phase") == "pake" for m in c.rx_log):
                 allowed.add("JSONDecodeError")      # known C14 finding; not this property's subject
             if a["closed"] and c.closed_when is not None:
@@ -92,6 +97,8 @@ class CloseExplore(Explore):
                 out.append(("wrong close verdict", "%s: got %s, admissible %s (closed_when=%r)" % (c.name, v, sorted(allowed), c.closed_when)))
             if v == "happy" and not any(e[0] == "verifier" for e in c.ev) and c.delegated:
                 out.append(("happy without a verified peer message", c.name))
+            if v == "ServerConnectionError":
+                continue        # never connected: nothing on the server to free
             # server-side resources
             if srv.holds_claim(c.side):
                 leaked = sorted(k for k, v2 in srv.nameplates.items() if c.side in v2["sides"])
